@@ -2,15 +2,16 @@
 # tools/tryseed.sh <patch.diff> <tier> <property>...  : applies a seeded change to /repo, runs the repository's own suite and the named
 # checks, and restores /repo. Prints one line per check: CAUGHT / MISSED.
 set -u
+V="$(cd "$(dirname "$0")/.." && pwd)"   # the verification directory this script lives in (normally /verif)
 PATCH="$(realpath "$1")"; TIER="$2"; shift 2
 cd /repo || exit 2
 if [ -n "$(git status --porcelain -- . ':!go.work.sum')" ]; then echo "/repo is not clean"; exit 2; fi
 git apply "$PATCH" || { echo "patch does not apply"; exit 2; }
 trap 'git -C /repo checkout -- . ' EXIT
-if /verif/bin/baseline > /tmp/tryseed.base.$$ 2>&1; then echo "suite: PASS (change survives the existing tests)"; else echo "suite: FAIL"; tail -5 /tmp/tryseed.base.$$; fi
+if $V/bin/baseline > /tmp/tryseed.base.$$ 2>&1; then echo "suite: PASS (change survives the existing tests)"; else echo "suite: FAIL"; tail -5 /tmp/tryseed.base.$$; fi
 rm -f /tmp/tryseed.base.$$
 for P in "$@"; do
-  OUT="$(/verif/bin/check "$P" "$TIER" 2>&1)"; RC=$?
+  OUT="$($V/bin/check "$P" "$TIER" 2>&1)"; RC=$?
   N=$(printf '%s\n' "$OUT" | grep -c '^VIOLATION')
   if [ $RC -eq 1 ] && [ "$N" -gt 0 ]; then echo "$P $TIER: CAUGHT ($N violation signatures) e.g. $(printf '%s\n' "$OUT" | grep -a -m1 'what:' | cut -c1-260)";
   elif [ $RC -eq 0 ]; then echo "$P $TIER: MISSED"; else echo "$P $TIER: rc=$RC $(printf '%s\n' "$OUT" | tail -2 | cut -c1-200)"; fi
